@@ -130,11 +130,11 @@ def _lockstep(ctx: Ctx, f: Func, groups: List[Tuple[str, List[str]]], rule: str 
         for n in walk(f.node):
             tgt = None
             if isinstance(n, ast.Call) and isinstance(n.func, ast.Attribute) and n.func.attr == "append":
-                tgt = norm(n.func.value)
+                tgt = q.chain(f, n.func.value)
             elif isinstance(n, ast.AugAssign):
-                tgt = norm(n.target)
+                tgt = q.chain(f, n.target)
             elif isinstance(n, ast.Assign) and isinstance(n.value, ast.List) and len(n.value.elts) == 1:
-                tgt = norm(n.targets[0])  # first element initialisation  x = [v]
+                tgt = q.chain(f, n.targets[0])  # first element initialisation  x = [v]
             if tgt is None:
                 continue
             for s in suffixes:
@@ -172,8 +172,8 @@ def r07_3(ctx: Ctx) -> None:
     # _after_write stores the member's CRC and size it was given
     params = aw.params
     def _app(suffix):
-        return [c.args[0] for c in q.calls(aw) if attr_tail(c) == "append" and norm(c.func.value).endswith(suffix) and c.args]
-    sizes = _app("substreamsinfo.unpacksizes") + [n.value.elts[0] for n in walk(aw.node) if isinstance(n, ast.Assign) and norm(n.targets[0]).endswith("substreamsinfo.unpacksizes")
+        return [c.args[0] for c in q.calls(aw) if attr_tail(c) == "append" and q.chain(aw, c.func.value).endswith(suffix) and c.args]
+    sizes = _app("substreamsinfo.unpacksizes") + [n.value.elts[0] for n in walk(aw.node) if isinstance(n, ast.Assign) and q.chain(aw, n.targets[0]).endswith("substreamsinfo.unpacksizes")
                                                      and isinstance(n.value, ast.List) and n.value.elts]
     ok = len(params) >= 4 and all(isinstance(a, ast.Name) and a.id == params[3] for a in _app("substreamsinfo.digests")) and bool(_app("substreamsinfo.digests")) \
         and all(isinstance(a, ast.Name) and a.id == params[1] for a in sizes) and bool(sizes) \
@@ -191,8 +191,8 @@ def r07_3(ctx: Ctx) -> None:
                  and isinstance(n.targets[0], ast.Name)}
     def _from_comp(e, attr):
         return isinstance(e, ast.Attribute) and e.attr == attr and isinstance(e.value, ast.Name) and e.value.id in comp_vars
-    ps = [c.args[0] for c in q.calls(fa) if attr_tail(c) == "append" and norm(c.func.value).endswith("packinfo.packsizes")]
-    cr = [c.args[0] for c in q.calls(fa) if attr_tail(c) == "append" and norm(c.func.value).endswith("packinfo.crcs")]
+    ps = [c.args[0] for c in q.calls(fa) if attr_tail(c) == "append" and q.chain(fa, c.func.value).endswith("packinfo.packsizes")]
+    cr = [c.args[0] for c in q.calls(fa) if attr_tail(c) == "append" and q.chain(fa, c.func.value).endswith("packinfo.crcs")]
     us = [n.value for n in walk(fa.node) if isinstance(n, ast.Assign) and isinstance(n.targets[0], ast.Attribute) and n.targets[0].attr == "unpacksizes"]
     fl = [c for c in q.calls(fa) if attr_tail(c) == "flush" and isinstance(c.func.value, ast.Name) and c.func.value.id in comp_vars]
     ok = bool(ps) and all(_from_comp(a, "packsize") for a in ps) and bool(cr) and all(_from_comp(a, "digest") for a in cr) and bool(us) \
@@ -200,7 +200,7 @@ def r07_3(ctx: Ctx) -> None:
     ctx.check(ok, "R07.3", fa, fa.node, "flush_archive records the compressor's packsize/digest/unpacksizes", "flush_archive does not record the flushed compressor's packsize, digest and unpacksizes",
               construct="flush_archive values")
     flush = [c for c in q.calls(fa) if attr_tail(c) == "flush"]
-    rec = [c for c in q.calls(fa) if attr_tail(c) == "append" and "packsizes" in norm(c.func)]
+    rec = [c for c in q.calls(fa) if attr_tail(c) == "append" and "packsizes" in q.chain(fa, c.func)]
     ok = bool(flush) and bool(rec) and cfg_of(fa.node).dominates(q.node_for(fa, flush[0]), q.node_for(fa, rec[0]))
     ctx.check(ok, "R07.3", fa, fa.node, "sizes recorded after the compressor was flushed", "flush_archive records the pack size before flushing the compressor", construct="flush before record")
     # PackInfo.write / UnpackInfo.write assert their counts
@@ -298,12 +298,13 @@ def r07_5(ctx: Ctx) -> None:
               f"the coder flag byte is composed with constants {sorted(consts)} instead of 0x0F (id size), 0x10 (complex), 0x20 (has properties)")
     rconsts: Set[int] = set()
     flag_var = None
-    for n in walk(r.node):
+    # the flag byte may be decoded in Folder._read itself or in a private helper it calls
+    for g, n, via in q.deep_nodes(ctx, r, depth=2):
         if isinstance(n, ast.Assign) and isinstance(n.value, ast.Call) and attr_tail(n.value) == "read_byte" and isinstance(n.targets[0], ast.Name):
-            flag_var = n.targets[0].id
-    ctx.need(flag_var is not None, "coder flag byte read not recognised in Folder._read")
-    for n in walk(r.node):
-        if isinstance(n, ast.BinOp) and isinstance(n.op, ast.BitAnd) and isinstance(n.left, ast.Name) and n.left.id == flag_var:
+            flag_var = (g, n.targets[0].id)
+    ctx.need(flag_var is not None, "coder flag byte read not recognised in Folder._read (or its helpers)")
+    for n in walk(flag_var[0].node):
+        if isinstance(n, ast.BinOp) and isinstance(n.op, ast.BitAnd) and isinstance(n.left, ast.Name) and n.left.id == flag_var[1]:
             rconsts |= _int_consts(n.right)
     ctx.check(rconsts == {0x0F, 0x10, 0x20}, "R07.5", r, r.node, "reader decodes the flag byte with masks 0x0F, 0x10, 0x20",
               f"the coder flag byte is decoded with masks {sorted(rconsts)} instead of 0x0F, 0x10, 0x20", construct="coder flag decode masks")
@@ -390,6 +391,29 @@ def _eval_reduce(ctx: Ctx, call: ast.Call, lst: List[int]):
     return acc
 
 
+def _eval_listpred(ctx: Ctx, e: ast.AST, lst: List[int]):
+    """truth value of a predicate over a list of folder counts: reduce(lambda ...), any(...)/all(...) of a comprehension, not/and/or of those."""
+    if isinstance(e, ast.Call) and dotted(e.func) in ("functools.reduce", "reduce"):
+        return _eval_reduce(ctx, e, lst)
+    if isinstance(e, ast.Call) and dotted(e.func) in ("any", "all") and e.args and isinstance(e.args[0], (ast.GeneratorExp, ast.ListComp)) \
+            and len(e.args[0].generators) == 1 and isinstance(e.args[0].generators[0].target, ast.Name) and not e.args[0].generators[0].ifs:
+        var = e.args[0].generators[0].target.id
+        vals = [bool(ctx.ce.eval(e.args[0].elt, "archiveinfo", env={var: y})) for y in lst]
+        return any(vals) if dotted(e.func) == "any" else all(vals)
+    if isinstance(e, ast.UnaryOp) and isinstance(e.op, ast.Not):
+        return not _eval_listpred(ctx, e.operand, lst)
+    if isinstance(e, ast.BoolOp):
+        vs = [_eval_listpred(ctx, v, lst) for v in e.values]
+        return all(vs) if isinstance(e.op, ast.And) else any(vs)
+    if isinstance(e, ast.Compare) and len(e.ops) == 1 and isinstance(e.left, ast.Call) and dotted(e.left.func) in ("max", "min", "sum", "len"):
+        fn = {"max": max, "min": min, "sum": sum, "len": len}[dotted(e.left.func)]
+        import operator as _op
+        table = {ast.Gt: _op.gt, ast.GtE: _op.ge, ast.Lt: _op.lt, ast.LtE: _op.le, ast.Eq: _op.eq, ast.NotEq: _op.ne}
+        if type(e.ops[0]) in table and lst:
+            return table[type(e.ops[0])](fn(lst), ctx.ce.eval(e.comparators[0], "archiveinfo"))
+    raise NotConst("unrecognised list predicate")
+
+
 def r07_8(ctx: Ctx) -> None:
     f = ctx.prog.func("archiveinfo", "SubstreamsInfo.write")
     cfg = cfg_of(f.node)
@@ -404,17 +428,14 @@ def r07_8(ctx: Ctx) -> None:
                              ("SIZE", lambda l: any(x > 1 for x in l), "some folder holds more than one stream")):
         n = cond_of(prop)
         ctx.need(n is not None, f"emission of {prop} not found in SubstreamsInfo.write")
-        srcs = q.sources_of(f, n.test, depth=2)
-        calls = [s for s in srcs if isinstance(s, ast.Call) and dotted(s.func) in ("functools.reduce", "reduce")]
-        ok = bool(calls)
+        pred = q.expand_locals(f, n.test)
         table = {}
-        if ok:
-            try:
-                for l in samples:
-                    table[str(l)] = bool(_eval_reduce(ctx, calls[0], l))
-                ok = all(table[str(l)] == want(l) for l in samples)
-            except NotConst:
-                ok = False
+        try:
+            for l in samples:
+                table[str(l)] = bool(_eval_listpred(ctx, pred, l))
+            ok = all(table[str(l)] == want(l) for l in samples)
+        except (NotConst, Exception):
+            ok = False
         ctx.check(ok, "R07.8", f, n.test, f"{prop} is written iff {what}",
                   f"the condition for writing {prop} is not '{what}' (truth table over sample folder counts: {table}): e.g. a folder with 0 streams (archive of directories only) "
                   "is then described as holding 1", construct=f"SubstreamsInfo.write {prop} condition")
